@@ -7,6 +7,7 @@
 From Coq Require Import List Arith.
 From SJ Require Import Model.Base Model.RefTables Model.Ring Proofs.RingProofs Tie.PipelineTie.
 From SJ Require Import Model.Iter Model.Walk Model.Marshal Proofs.ApiTotalFinal.
+From SJ Require Proofs.ApiTotalBase Proofs.ApiTotalParse.
 Open Scope N_scope.
 
 (* the full statement on the model: no Crash / OutOfFuel outcome of parsing *)
@@ -67,6 +68,12 @@ Proof. intros n evs s. exact (ring_can_finish S_gen CAP_gen n evs s tie_cap_posi
 Theorem C05_traversal_lookup_marshal_total : forall pj,
   fine (walk_doc pj) /\ fine (marshal_iter pj (iter0 pj)) /\ forall path, fine (find_element pj (iter0 pj) path).
 Proof. intros pj. split; [apply walk_doc_fine|]. split; [apply marshal_doc_fine|apply find_element_doc_fine]. Qed.
+(* Interface() / Map() of the whole document and Object.Parse from any reachable object
+   cursor, on ARBITRARY tapes as well (since fix F19) *)
+Theorem C05_interface_total : forall pj, fine (interface_doc pj).
+Proof. exact interface_doc_fine_any. Qed.
+Theorem C05_object_parse_total : forall pj i o, ApiTotalBase.iter_ok pj i -> iter_object i = Ok o -> fine (obj_parse pj o).
+Proof. intros pj i o Hi Ho. eapply okP_fine. apply ApiTotalParse.obj_parse_total. eapply object_closed; eassumption. Qed.
 Definition C05_find_key_total := find_key_fine.
 Definition C05_find_path_total := find_path_fine.
 Definition C05_object_foreach_total := obj_foreach_fine.
@@ -75,3 +82,5 @@ Definition C05_as_number_total := as_num_fine.
 Definition C05_as_string_total := as_string_fine.
 Definition C05_array_marshal_total := marshal_array_fine.
 Print Assumptions C05_traversal_lookup_marshal_total.
+Print Assumptions C05_interface_total.
+Print Assumptions C05_object_parse_total.
